@@ -213,9 +213,27 @@ def run (ctx):
   nested = q.nested_defs(pin.node)
   lk = nested.get('lookInSysDesc')
   src = norm(pin.node)
+  gpin = q.cfg_of(pin)
+  linkn = gpin.nodes_with_call(lambda c: call_name(c) == 'Link')
   for idx, typ in ((0, 'CHASSIS_ID_TLV'), (1, 'PORT_ID_TLV'), (2, 'TTL_TLV')):
-    want = 'lldph.tlvs[%d].tlv_type != pkt.lldp.%s' % (idx, typ)
-    ctx.ob('R-AGREE', pin, "reader expects TLV %d to be %s" % (idx, typ), want in src, want if want in src else "type test for TLV %d changed" % idx, pin, 'D2')
+    # whichever way the comparison is written: with TLV idx of another type no link is built
+    def is_cmp (e, idx=idx, typ=typ):
+      if not (isinstance(e, ast.Compare) and len(e.ops) == 1 and isinstance(e.ops[0], (ast.Eq, ast.NotEq))): return False
+      a, b = norm(e.left), norm(e.comparators[0])
+      return (a.endswith('tlvs[%d].tlv_type' % idx) and b.endswith(typ)) or (b.endswith('tlvs[%d].tlv_type' % idx) and a.endswith(typ))
+    cmps = [n for n in gpin.nodes if n.kind == 'cond' and is_cmp(n.ast)]
+    if not cmps or not linkn:
+      other = [norm(n.ast) for n in gpin.nodes if n.kind == 'cond' and 'tlv_type' in norm(n.ast)]
+      if other or not linkn:
+        ctx.undecided('R-AGREE', pin, "reader expects TLV %d to be %s" % (idx, typ), "type tests are written in a form that is not recognised (%s)" % other[:3], pin, 'D2')
+      else:
+        ctx.bad('R-AGREE', pin, "reader expects TLV %d to be %s" % (idx, typ), "no test of TLV %d's type before a link is derived from the packet" % idx, pin, 'D2')
+      continue
+    mism = [((lambda e, f=is_cmp: f(e) and isinstance(e.ops[0], ast.NotEq)), True), ((lambda e, f=is_cmp: f(e) and isinstance(e.ops[0], ast.Eq)), False)]
+    reach = q.reach_under(repo, pin.module, gpin, q.Env({}, mism), None)
+    bad_ = [n for n in linkn if n in reach]
+    ctx.ob('R-AGREE', pin, "reader expects TLV %d to be %s" % (idx, typ), not bad_, norm(cmps[0].ast) if not bad_ else
+           "a link is still derived from a packet whose TLV %d is not %s" % (idx, typ), pin, 'D2')
   if lk is None:
     ctx.undecided('R-AGREE', pin, "system-description reader", "nested lookInSysDesc not found", pin, 'D2')
   else:
@@ -311,8 +329,48 @@ def run (ctx):
   ctx.ob('R-AGREE', cst, "when a link is chosen for a switch pair both directions take their port from that same link", good,
          "adj[s1][s2] = l.port1 and adj[s2][s1] = l.port2 together" if good else
          "the two directions of a switch pair are no longer fixed from one link object (%s / %s): with parallel links learnt in different orders each side can enable a different cable - the flood-enabled ports are not the two ends of one link and flooding loops" % ([norm(s) for s, v in w12], [norm(s) for s, v in w21]), cst, 'D4')
-  bid = [n for n in g4.nodes if n.kind == 'cond' and 'flip(l) in core.openflow_discovery.adjacency' in norm(n.ast)]
-  ctx.ob('R-DOM', cst, "only links seen in both directions are used for the tree", bool(bid) and bool(w12) and any('flip(l) in core.openflow_discovery.adjacency' in f for f in q.fact_strs(g4, q.enclosing_stmt_node(g4, w12[0][0]))), "under flip(l) in adjacency", cst, 'D4')
+  # the chosen link's reverse must be known: `<reverse of l> in <adjacency>` holds where the ports are fixed, the reverse being
+  # flip(l) (nested helper building Link(l[2], l[3], l[0], l[1])) or the same constructor written out
+  FIELDS = ['dpid1', 'port1', 'dpid2', 'port2']
+  nest4 = q.nested_defs(cst.node)
+  def piece (e, var):
+    if isinstance(e, ast.Subscript) and isinstance(e.value, ast.Name) and e.value.id == var and isinstance(e.slice, ast.Constant): return e.slice.value
+    if isinstance(e, ast.Attribute) and isinstance(e.value, ast.Name) and e.value.id == var and e.attr in FIELDS: return FIELDS.index(e.attr)
+    return None
+  def reversed_of (e):
+    """name of the link variable whose reverse e builds, or None"""
+    if not isinstance(e, ast.Call): return None
+    if isinstance(e.func, ast.Name) and e.func.id in nest4 and len(e.args) == 1 and isinstance(e.args[0], ast.Name):
+      h = nest4[e.func.id]; hn = getattr(h, "node", h)
+      body = [b for b in hn.body if not (isinstance(b, ast.Expr) and isinstance(b.value, ast.Constant))]
+      if len(body) == 1 and isinstance(body[0], ast.Return) and len(hn.args.args) == 1:
+        inner = reversed_of_ctor(body[0].value, hn.args.args[0].arg)
+        return e.args[0].id if inner else None
+      return None
+    for v in set(x.id for x in ast.walk(e) if isinstance(x, ast.Name)):
+      if reversed_of_ctor(e, v): return v
+    return None
+  def reversed_of_ctor (e, var):
+    return isinstance(e, ast.Call) and call_name(e) == 'Link' and len(e.args) == 4 and not e.keywords and [piece(a, var) for a in e.args] == [2, 3, 0, 1]
+  def is_bidir (e):
+    return isinstance(e, ast.Compare) and len(e.ops) == 1 and isinstance(e.ops[0], ast.In) and norm(e.comparators[0]).endswith('adjacency') and reversed_of(e.left) is not None
+  membership = [n for n in g4.nodes if n.kind == 'cond' and isinstance(n.ast, ast.Compare) and isinstance(n.ast.ops[0], (ast.In, ast.NotIn)) and 'adjacency' in norm(n.ast.comparators[0])]
+  if w12:
+    wn = q.enclosing_stmt_node(g4, w12[0][0])
+    lv = norm(w12[0][1]).split('.')[0]
+    holds = [(l_, r_) for l_, o_, r_, b_ in q.guard_facts(g4, wn) if o_ == 'in' and norm(r_).endswith('adjacency') and reversed_of(l_) == lv]
+    if holds:
+      ctx.ob('R-DOM', cst, "only links seen in both directions are used for the tree", True, "under `%s in %s`" % (norm(holds[0][0]), norm(holds[0][1])), cst, 'D4')
+    elif membership and not any(is_bidir(n.ast) for n in membership) and any(reversed_of(n.ast.left) is None and isinstance(n.ast.left, ast.Call) for n in membership):
+      ctx.bad('R-DOM', cst, "only links seen in both directions are used for the tree", "the membership test %s does not look up the reverse of the link (dpid2, port2, dpid1, port1)" % [norm(n.ast) for n in membership][:2], cst, 'D4')
+    elif any(is_bidir(n.ast) for n in membership):
+      # the test exists but does not guard the choice: decide by reachability with the reverse absent
+      env_ = q.Env({}, [(is_bidir, False)])
+      r_ = q.reach_under(repo, cst.module, g4, env_, None)
+      ctx.ob('R-DOM', cst, "only links seen in both directions are used for the tree", wn not in r_,
+             "the ports are fixed only when the reverse link is known" if wn not in r_ else "the ports of a pair are fixed from a link whose reverse direction is not in the adjacency table: one-way links end up in the tree", cst, 'D4')
+    else:
+      ctx.bad('R-DOM', cst, "only links seen in both directions are used for the tree", "no test that the reverse of the chosen link is known", cst, 'D4')
   dels = [x for x in g4.nodes if x.ast is not None and isinstance(x.ast, ast.Delete)]
   d12 = [x for x in dels if 'adj[s1][s2]' in norm(x.ast)]; d21 = [x for x in dels if 'adj[s2][s1]' in norm(x.ast)]
   ctx.ob('R-AGREE', cst, "a pair without a bidirectional link is removed in both directions", bool(d12) and bool(d21) and g4.dominates(d12[0], d21[0]), "del adj[s1][s2]; del adj[s2][s1]", cst, 'D4')
